@@ -36,7 +36,7 @@ def field_term(ch, a, b):
     return None
 
 
-def build(shape, assign, cfg, generic=False, ctx='alone'):
+def build(shape, assign, cfg, generic=False, ctx='alone', small_domain=False):
     """assign[vi] = string over c/i/m/l, one char per field"""
     traits, carrier = CFGS[cfg]
     tys, fattrs, doms = [], [], []
@@ -48,7 +48,7 @@ def build(shape, assign, cfg, generic=False, ctx='alone'):
             salt += 1
             t.append('I' if ch in 'ix' else ('G' if generic and ch == 'c' else 'V'))
             a.append(place(field_meta(ch, carrier, salt + vi), 'Hash(ignore)', ctx))
-            d.append(['I(0)', 'I(1)'] if ch in 'ix' else ['V(0)', 'V(1)', 'V(2)'])
+            d.append(['I(0)', 'I(1)'] if ch in 'ix' else (['V(0)', 'V(1)'] if small_domain else ['V(0)', 'V(1)', 'V(2)']))
         tys.append(t)
         fattrs.append(a)
         doms.append(d)
@@ -82,6 +82,25 @@ def build(shape, assign, cfg, generic=False, ctx='alone'):
     return Case(key, src, spec, expect='accept', run=True, depth=depth)
 
 
+def assignments_k(shape, alphabet, k):
+    """assignments with at most k positions deviating from alphabet[0] (breadth-first by number of deviations)"""
+    pos = shape.positions()
+    base = [[alphabet[0]] * f.n for f in shape.variants]
+    yield tuple(''.join(b) for b in base)
+    for r in range(1, k + 1):
+        for where in itertools.combinations(pos, r):
+            for syms in itertools.product(alphabet[1:], repeat=r):
+                a = [list(b) for b in base]
+                for (vi, fi), sy in zip(where, syms):
+                    a[vi][fi] = sy
+                yield tuple(''.join(b) for b in a)
+
+
+WIDE = [S.Shape('struct', [S.Fields('n', 5)]), S.Shape('struct', [S.Fields('t', 6)]),
+        S.Shape('enum', [S.Fields('t', 1), S.Fields('u'), S.Fields('n', 5), S.Fields('t', 4), S.Fields('n', 1)]),
+        S.Shape('enum', [S.Fields('u'), S.Fields('u'), S.Fields('t', 2), S.Fields('u'), S.Fields('n', 2), S.Fields('t', 1)])]
+
+
 def assignments(shape, alphabet):
     per = [[''.join(p) for p in itertools.product(alphabet, repeat=f.n)] for f in shape.variants]
     return itertools.product(*per)
@@ -102,6 +121,10 @@ def generate(tier):
             for cfg in CFGS:
                 cases.append(build(sh, assign, cfg))
         # one generic instantiation per shape with the plain assignment rotated
+    # wide shapes (5-6 fields, 5-6 variants), breadth-first by deviations from the plain derive (k <= 2; thorough 3)
+    for sh in WIDE:
+        for assign in assignments_k(sh, 'cimx', 2 if tier == 'quick' else 3):
+            cases.append(build(sh, assign, 'PE' if len(assign) % 2 else 'P', small_domain=True))
     for sh in S.struct_shapes(2) + S.enum_shapes(2, 2):
         if not sh.positions():
             continue
@@ -130,7 +153,7 @@ def check(v, tier):
     return v.finish(RULE, {'bounds': BOUNDS[tier]})
 
 
-RULE = ('every struct/enum shape within the bound x every assignment of {compared, ignored (type whose == panics), ignored + method (both parameters: still ignored), '
+RULE = ('wide shapes (5-6 fields, 5-6 variants) with at most 2 (thorough 3) positions deviating from the plain derive; every struct/enum shape within the bound x every assignment of {compared, ignored (type whose == panics), ignored + method (both parameters: still ignored), '
         'method (asymmetric), method (lawful)} per field x attribute carrier {PartialEq alone, PartialEq(..) with Eq, '
         'Eq(..) with PartialEq} x attribute context (other trait\'s attribute before/after/same list); per program all '
         'ordered pairs of values over {0,1,2} (ignored fields {0,1}) against the field-wise model, != as negation, '
